@@ -42,6 +42,11 @@ def rule(rid, floor=0, doc=""):
 def run_rule(rid, ctx):
     """Returns list[Inst]; converts exceptions / missing anchors / floors into failing instances."""
     fn, meta = RULES[rid]
+    cache = getattr(ctx, "_rule_cache", None)
+    if cache is None:
+        cache = ctx._rule_cache = {}
+    if rid in cache:
+        return list(cache[rid])
     out = []
     try:
         res = fn(ctx)
@@ -60,6 +65,7 @@ def run_rule(rid, ctx):
         out.append(Inst(rid, "floor", False, fact="found %d instances" % n,
                         oracle="at least %d instances (hand count on the pinned tree)" % meta["floor"],
                         kind="anchor lost"))
+    cache[rid] = list(out)
     return out
 
 
